@@ -108,7 +108,13 @@ def step_refine(ctx):
         return out  # with all IDs present the call uses the real RNG: judged through the owned-RNG `shuffle(...)` operations
     R = refmodel.model_for(pre["cls"])().load(pre)
     try:
-        res = eval(op, {"H": R, "aliased": lambda f, m: f(m)})
+        import numpy as np
+
+        ns = dict(A.NAMESPACE)
+        ns.update({"H": R, "aliased": lambda f, m: f(m), "np": np})
+        res = eval(op, ns)
+    except NameError:
+        raise  # a name the alphabet uses is not bound for the model: a harness fault, never a silent skip
     except Exception:  # noqa: BLE001 - the model does not define this call shape
         return out
     if not isinstance(res, refmodel.Res):
@@ -185,6 +191,19 @@ def specs(tier):
         explore.Spec("simplicialcomplex-refinement", c03.SEEDS[:2] if q else c03.SEEDS,
                      A.simplicial_static() + A.simplicial_deviant(), [A.gen_simplex_removals], steps=[step_refine],
                      depth=depth, dev_bound=devb, namespace=histcheck.base_namespace),
+    ]
+    # the same vocabulary over labels and IDs of other types (tuple, string, float; tuple / string / numpy-integer IDs)
+    xd = 2 if q else 3
+    sp += [
+        explore.Spec("hypergraph-refinement-exotic-labels", ["xgi.Hypergraph()", "xgi.Hypergraph({ET: [TA, SB], 0: [SB, FC], ES: [FC]})"],
+                     A.hypergraph_exotic(), [A.gen_member_removals, A.gen_swaps], steps=[step_refine], depth=xd, dev_bound=devb,
+                     namespace=histcheck.base_namespace),
+        explore.Spec("dihypergraph-refinement-exotic-labels", ["xgi.DiHypergraph()", "xgi.DiHypergraph({ET: ([TA], [SB]), 0: ([SB, FC], [TA])})"],
+                     A.dihypergraph_exotic(), [A.gen_dimember_removals], steps=[step_refine], depth=xd, dev_bound=devb,
+                     namespace=histcheck.base_namespace),
+        explore.Spec("simplicialcomplex-refinement-exotic-labels", ["xgi.SimplicialComplex()", "xgi.SimplicialComplex({ET: [TA, SB], 5: [SB, FC]})"],
+                     A.simplicial_exotic(), [A.gen_simplex_removals], steps=[step_refine], depth=xd, dev_bound=devb,
+                     namespace=histcheck.base_namespace),
     ]
     if not q:
         sp += [
